@@ -26,13 +26,20 @@ class Server(object):
         for r in readers:
             self.pending_invalidations.append((self.redirect.get(r), [key]))
 
+    def flushdb(self):
+        """FLUSHDB/FLUSHALL by an operator: the keyspace and the tracking table are emptied and every client that has tracking enabled is sent ONE
+        invalidation whose payload is null ("forget everything")."""
+        self.data.clear(); self.ttl.clear(); self.tracking.clear()
+        for target in sorted(set(self.redirect.values()), key=str):
+            self.pending_invalidations.append((target, None))
+
     def deliver_invalidation(self, index=0):
         """Harness action: deliver one pending invalidation message and wait until it is handled."""
         target, keys = self.pending_invalidations.pop(index)
         for ps in list(self.subs.get("__redis__:invalidate", [])):
             if ps.client_id == target:
                 ps.push({"type": "message", "pattern": None, "channel": b"__redis__:invalidate",
-                         "data": [k.encode() for k in keys]})
+                         "data": None if keys is None else [k.encode() for k in keys]})
 
     def publish(self, channel, data):
         n = 0
